@@ -377,8 +377,8 @@ Selectors ==
     \* N: one special name at position p among plain names, fixed sequences
     \* (alone, first of two, last of two, middle of three)
     {Sel("N", f, NameBlock, n, p) : f \in Fmts, n \in 1..MaxN, p \in 1..MaxN} 
-    \* S: plain names, every first sequence, every block size
-    \cup UNION {{Sel("S", f, b, n, 0) : b \in BlocksFor(f), n \in 1..MaxN} : f \in Fmts}
+    \* S: plain names (one sequence / MaxN sequences), every first sequence, every block size
+    \cup UNION {{Sel("S", f, b, n, 0) : b \in BlocksFor(f), n \in {1, MaxN}} : f \in Fmts}
     \* R: ragged collections (unaligned only, formats without a common length)
     \cup UNION {{Sel("R", f, b, 3, 0) : b \in BlocksFor(f)} : f \in RaggedFmts}
     \* P: two special names
